@@ -16,7 +16,9 @@ RULE = ("cases from props/C01.py gen(): vi/pe cases run ValueIteration/PolicyEva
         "MDP::SparseModel, a user-defined query-only model and a query-only view of MDP::Model built from the "
         "same tables (dyadic regime: bit-exact comparison with the extracted model; general regime: 1e-9 abs+rel); "
         "solve cases cross-check VI / PolicyIteration / LinearProgramming by the Bellman residual; pi cases compare PolicyIteration "
-        "with the model; via cases start VI from a ValueFunction with a short action vector; learn cases run VI on "
+        "with the model; seq cases reuse ONE ValueIteration / PolicyIteration / LinearProgramming object (and one PolicyEvaluation "
+        "object per model over two policies) across 2-3 models of equal or different shape and all representations, each answer "
+        "judged as a fresh solve; via cases start VI from a ValueFunction with a short action vector; learn cases run VI on "
         "MaximumLikelihoodModel. non-trivial = horizon > 0 and more than one state (solve: also more than one action); "
         "distinct by md5 of the case line")
 TRUSTED_BASE = [
@@ -275,6 +277,77 @@ def gen_pi(rng):
     return " ".join(toks)
 
 
+def gen_seq(rng):
+    """solver-object reuse: one ValueIteration / PolicyIteration / LinearProgramming object (and one
+    PolicyEvaluation object per model, over two policies) across 2-3 models of equal or different shape"""
+    dy = rng.random() < 0.8
+    k = rng.choice([2, 2, 3])
+    def shape():
+        return (rng.choice([1, 2, 2, 3]), rng.choice([1, 2, 2]) if dy else rng.choice([1, 2, 3]))
+    def fresh(S, A, j):
+        if dy:
+            t = dy_rows(rng, S, A, j); _, r = dy_rewards(rng, S, A)
+        else:
+            t = ge_rows(rng, S, A); r = ge_rewards(rng, S, A, allow_scale=False)
+        return t, r
+    def policy(S, A):
+        rows = []
+        for s in range(S):
+            if dy:
+                row = composition(rng, 2, A)
+                rows.append([q(x, 2) for x in row])
+            else:
+                w = [rng.random() for _ in range(A)]; tot = sum(w)
+                rows.append([hx(x / tot) for x in w])
+        return rows
+    j = rng.choice([1, 2])
+    gams = [(1, 2, 1), (3, 4, 2)] if dy else [(0.5,), (0.75,), (0.9,)]
+    S, A = shape(); gam = rng.choice(gams); t, r = fresh(S, A, j)
+    models = [(S, A, gam, t, r)]
+    for i in range(1, k):
+        S, A, gam, t, r = models[-1]
+        mode = rng.choice(["rewards", "rewards", "transitions", "both", "gamma", "shape", "first"])
+        if mode == "rewards": _, r = fresh(S, A, j)
+        elif mode == "transitions": t, _ = fresh(S, A, j)
+        elif mode == "both": t, r = fresh(S, A, j)
+        elif mode == "gamma": gam = rng.choice([g for g in gams if g != gam])
+        elif mode == "first" and i >= 2: S, A, gam, t, r = models[0]
+        else:
+            S, A = shape(); gam = rng.choice(gams); t, r = fresh(S, A, j)
+        models.append((S, A, gam, t, r))
+    if dy:
+        # bit budget as in gen_dy: (j + bits gamma + 1 policy bit) per sweep
+        h = rng.randint(1, min(6, (52 - 7 - j - 2) // (j + 2 + 1)))
+        tol = rng.choice(["0", "0", "1/8", "1/64"])
+    else:
+        h = rng.choice([1, 2, 3]); tol = rng.choice([hx(0.0), hx(1e-2)])
+    hpi = rng.choice([1, 2])
+    toks = ["seq", "dy" if dy else "ge", str(k), str(h), tol, str(hpi)]
+    if rng.random() < 0.3:
+        S0 = models[0][0]
+        toks += [str(S0)] + ([q(rng.randint(-32, 32), 4) for _ in range(S0)] if dy else [hx(rng.uniform(-5, 5)) for _ in range(S0)])
+    else:
+        toks += ["0"]
+    D = 1 << j
+    for (S, A, gam, t, r) in models:
+        if dy:
+            toks += [str(S), str(A), q(gam[0], gam[1]), str(j + gam[2] + 1)]
+            for s in range(S):
+                for a in range(A):
+                    toks += [q(x, D) if x not in (0, D) else ("0" if x == 0 else "1") for x in t[s][a]]
+            for s in range(S):
+                for a in range(A): toks += [str(x) for x in r[s][a]]
+        else:
+            toks += [str(S), str(A), hx(gam[0]), "0"]
+            for s in range(S):
+                for a in range(A): toks += [hx(x) for x in t[s][a]]
+            for s in range(S):
+                for a in range(A): toks += [hx(x) for x in r[s][a]]
+        for _ in range(2):
+            for row in policy(S, A): toks += row
+    return " ".join(toks)
+
+
 def gen(rng, tier):
     n = {"quick": 420, "thorough": 2200, "search": 1200}[tier]
     out = []
@@ -284,8 +357,9 @@ def gen(rng, tier):
         elif u < 0.65: out.append(gen_dy(rng, "pe"))
         elif u < 0.78: out.append(gen_ge(rng, "vi"))
         elif u < 0.86: out.append(gen_ge(rng, "pe"))
-        elif u < 0.92: out.append(gen_solve(rng))
-        elif u < 0.955: out.append(gen_pi(rng))
-        elif u < 0.965: out.append(gen_via(rng))
+        elif u < 0.91: out.append(gen_solve(rng))
+        elif u < 0.93: out.append(gen_pi(rng))
+        elif u < 0.96: out.append(gen_seq(rng))
+        elif u < 0.968: out.append(gen_via(rng))
         else: out.append(gen_learn(rng))
     return out
